@@ -90,6 +90,29 @@ def z2(ctx):
                 if (b.file or "").startswith("src/") and not b.from_expansion and not s.get("mac"):
                     ctx.bad("ptr-to-int:" + C.fkey(root), "%s casts a pointer to an integer: the value depends on memory addresses" % C.short(root.id), where_of(b, bi, s.get("line")))
     ctx.floor("clock / environment call sites seen (positive control: run/ uses Instant)", hits, 4)
+    # memory addresses used as an ORDER: `<` on raw pointers, sorting / min / max keyed by a pointer, ordered containers of pointers
+    PTR = re.compile(r"^\*(const|mut) ")
+    for b in crate.bodies.values():
+        if not (b.file or "").startswith("src/") or b.from_expansion:
+            continue
+        root = crate.root_of(b)
+        for bi, si, s_ in b.statements():
+            rv = s_["rv"] if s_["k"] == "assign" else None
+            if rv and rv["k"] == "bin" and rv.get("op") in ("Lt", "Le", "Gt", "Ge", "Cmp") and not s_.get("mac"):
+                tys = [b.local_ty(mir.op_place(o)["l"]) for o in (rv["a"], rv["b"]) if mir.op_place(o) is not None and not mir.op_place(o)["p"]]
+                if any(PTR.search(t) for t in tys):
+                    ctx.bad("ptr-order:" + C.fkey(root), "%s orders two raw pointers: the outcome depends on where the allocator placed the values" % C.short(root.id), where_of(b, bi, s_.get("line")))
+        for c in b.calls:
+            if b.blocks[c.bb]["cleanup"] or not c.callee:
+                continue
+            if c.callee.name in ("sort_by_key", "sort_unstable_by_key", "sort_by_cached_key", "min_by_key", "max_by_key", "binary_search_by_key") and c.args:
+                cl = C._closure_of_role(crate, b.role_of_operand(c.args[-1]))
+                if hasattr(cl, "local_ty") and PTR.search(cl.local_ty(0)):
+                    ctx.bad("ptr-order:" + C.fkey(root), "%s sorts / selects by a key that is a raw pointer (%s): the order depends on memory addresses" % (C.short(root.id), cl.local_ty(0)[:40]), where_of(b, c.bb))
+        for l, loc in enumerate(b.locals):
+            if re.search(r"(BTreeMap|BTreeSet|BinaryHeap)<\*(const|mut) ", loc["ty"]):
+                ctx.bad("ptr-order:" + C.fkey(root), "%s keeps raw pointers in an ordered container (%s): its iteration order depends on memory addresses" % (C.short(root.id), loc["ty"][:60]), where_of(b))
+                break
     # the time limit only decides the stop reason, it never reaches the e-graph
     # pointer-keyed hash containers
     ptr_users = {}
